@@ -20,6 +20,7 @@ from gramsym.harness import Harness, run_main
 from gramsym import inputs as I, terms as T
 from gramsym.values import (Adt, Struct, TupleV, VecV, Str, Union, none, some, z_and, z_or, z_not, z_eq, InternalError)
 from gramsym.explorer import PathAbort, FuelExhausted, Frame
+from gramsym.interp import PanicEx
 from gramsym.refcheck import RefChecker, Reject, Entry
 from gramsym.refs import RefUnknown, Refs
 from gramsym.lawlib import ConcreteCtx, empty_model, concrete_truth
@@ -36,7 +37,7 @@ TYPE = T.mk("Type")
 
 def contexts(ex):
     """A symbolic choice of context.  Returns (typing VecV, defs VecV, description)."""
-    k = ex.choose(8)
+    k = ex.choose(9)
     lit = T.lit(z3.Int("ctxlit"))
     if k == 0:
         ent = [("param", INT)]
@@ -54,8 +55,13 @@ def contexts(ex):
         ent = [("def", TYPE, TYPE)]
     elif k == 6:
         ent = [("def", TYPE, INT), ("def", TYPE, TYPE), ("param", T.var("v", 1))]
-    else:
+    elif k == 7:
         ent = [("def", INT, lit), ("def", TYPE, TYPE)]
+    else:
+        # a parameter and two definitions that close as ONE group of two definitions, the second
+        # mentioning the parameter (added after S-C18-02: the group's type must carry its definitions
+        # into the outer scope correctly; one-definition groups do not exercise that)
+        ent = [("param", TYPE), ("gdef", TYPE, INT), ("gdef", TYPE, T.var("a", 2))]
     typing, defs = VecV(), VecV()
     for e in ent:
         if e[0] == "param":
@@ -67,16 +73,28 @@ def contexts(ex):
     return typing, defs, ent
 
 
-def close(term, ent):
-    """Bind the context around the term: innermost entry first."""
+def close(term, ent, binder="Lambda"):
+    """Bind the context around the term: innermost entry first.  Consecutive "gdef" entries become one
+    group (their terms are written so that they mean the same in the context and in the group).
+    binder="Pi" closes a *type*."""
     t = term
-    for i in range(len(ent) - 1, -1, -1):
+    sr = T.some(T.Struct("error::SourceRange", {"start": 0, "end": 1}))
+    i = len(ent) - 1
+    while i >= 0:
         e = ent[i]
         name = "g%d" % i
         if e[0] == "param":
-            t = T.mk("Lambda", [name, False, e[1], t], T.some(T.Struct("error::SourceRange", {"start": 0, "end": 1})))
+            t = T.mk(binder, [name, False, e[1], t], sr)
+            i -= 1
+        elif e[0] == "def":
+            t = T.let([(name, e[1], e[2])], t, sr)
+            i -= 1
         else:
-            t = T.let([(name, e[1], e[2])], t, T.some(T.Struct("error::SourceRange", {"start": 0, "end": 1})))
+            j = i
+            while j >= 0 and ent[j][0] == "gdef":
+                j -= 1
+            t = T.let([("g%d" % k, ent[k][1], ent[k][2]) for k in range(j + 1, i + 1)], t, sr)
+            i = j
     return t
 
 
@@ -105,8 +123,10 @@ def obligations(ex, it, root):
         case = {"t": conc.term(root), "closed": conc.term(closed), "context": len(ent)}
         case["typing_ctx"] = [{"term": conc.term(e[1]), "offset": 0 if e[0] == "param" else 1} for e in ent]
         case["defs_ctx"] = [None if e[0] == "param" else {"term": conc.term(e[2]), "offset": 1} for e in ent]
+        case["entries"] = [[e[0]] + [conc.term(x) for x in e[1:]] for e in ent]
         case["cells"] = conc.cells_table()
         return case
+    ex.f.locals["c18_info"] = info
     tb, db = snapshot(typing), snapshot(defs)
     try:
         res, _, _ = TC.call_type_check(it, root, typing, defs)
@@ -126,6 +146,20 @@ def obligations(ex, it, root):
     # or when the program has no holes at all (a rejected first run may leave partial solutions)
     if verdict == "Ok" or not ex.f.store:
         ex.check(res2.variant == verdict, "X2.closed-program-verdict (open: %s, closed: %s)" % (verdict, res2.variant), info=info)
+    # (2b) "... and an equal type": the type reported for the closed program is the open type closed
+    # the same way (function types for parameters, the group for definitions)
+    if verdict == "Ok" and res2.variant == "Ok":
+        t_open, t_closed = res.fields[0][1], res2.fields[0][1]
+        rc = RefChecker(ex, TC.concretize_ctor, fuel=600)
+        import c19
+        try:
+            # types with unresolved holes are outside the claim (the two runs have their own holes)
+            t_open, t_closed = c19.zonk(ex, t_open), c19.zonk(ex, t_closed)
+            same = rc.conv(t_closed, close(t_open, ent, binder="Pi"), [])
+        except RefUnknown as u:
+            ex.count("outside:" + u.why)
+            return
+        ex.check(same, "X4.closed-program-type-is-the-closed-open-type", info=info)
 
 
 def make_factory(H, budget):
@@ -138,7 +172,10 @@ def make_factory(H, budget):
 
         def body(ex):
             it.call_depth = 0
-            obligations(ex, it, root)
+            try:
+                obligations(ex, it, root)
+            except PanicEx as p:
+                ex.check(False, "X0.PANIC %s (%s.rs:%s)" % (p.msg, p.module, p.line), info=ex.f.locals.get("c18_info"))
         return ex, body, None
     return make
 
@@ -205,6 +242,9 @@ def confirm(H, label, case):
                      "defs_ctx": case["defs_ctx"], "source": ""})
     if "typing_ctx" not in r:
         return True, "%s: compiled type_check failed: %s" % (shown, r)
+    if label.startswith("X0"):
+        r2 = replay.call({"op": "type_check", "term": case["closed"], "cells": case["cells"], "typing_ctx": [], "defs_ctx": [], "source": ""})
+        return ("panic" in r2 or "crash" in r2), "%s: no panic under the context; closed program: %s" % (shown, str(r2)[:200])
     if label.startswith("X1"):
         same = (T.canon(r["typing_ctx"], drop_sr=True) == T.canon(case["typing_ctx"], drop_sr=True) and
                 [None if e is None else T.canon(e, drop_sr=True) for e in r["defs_ctx"]] ==
@@ -213,6 +253,25 @@ def confirm(H, label, case):
     r2 = replay.call({"op": "type_check", "term": case["closed"], "cells": case["cells"], "typing_ctx": [], "defs_ctx": [], "source": ""})
     v1 = "Ok" if "ok" in r else "Err"
     v2 = "Ok" if "ok" in r2 else "Err"
+    if label.startswith("X4"):
+        if v1 != "Ok" or v2 != "Ok":
+            return False, "%s: verdicts %s / %s" % (shown, v1, v2)
+        cx = ConcreteCtx()
+        objs = {}
+        import c19
+        zo, zc = c19.zonk_json(r["ok"]["type"], r["cells"]), c19.zonk_json(r2["ok"]["type"], r2["cells"])
+        if zo is None or zc is None:
+            return False, "%s: a reported type has unresolved holes" % shown
+        t_open = T.from_json(zo, {}, objs)
+        t_closed = T.from_json(zc, {}, {})
+        ent = [tuple([e[0]] + [T.from_json(x) for x in e[1:]]) for e in case["entries"]]
+        rc = RefChecker(cx, TC.concretize_ctor, fuel=2000)
+        try:
+            same = rc.conv(t_closed, close(t_open, ent, binder="Pi"), [])
+        except RefUnknown as u:
+            return False, "%s: reference cannot compare the types (%s)" % (shown, u.why)
+        return (not same), "%s has type %s; the closed program %s has type %s, which is not the open type closed over the context" % (
+            shown, r["ok"]["type_shown"], T.show(case["closed"], case.get("cells")), r2["ok"]["type_shown"])
     return (v1 != v2), "%s: verdict %s; closed program %s: verdict %s" % (shown, v1, T.show(case["closed"], case.get("cells")), v2)
 
 
@@ -248,10 +307,13 @@ def main():
     import c12
     if quick:
         c12.GAMMAS[:] = [1, 3]
-    parts = [("type_check under 5 context shapes, B(%d) with holes" % budget, make_factory(H, budget), confirm),
+    parts = [("type_check under 9 context shapes, B(%d) with holes" % budget, make_factory(H, budget), confirm),
              ("normalize_weak_head of context variables", normalize_obligations(H), confirm),
              ("unify under contexts, every former over leaves on both sides: context restored, verdict = reference under the same context",
               c06.make_pairs(H, 0, 0, family=True, formers=c06.FORMERS_QUICK if quick else c06.FORMERS), c06.confirm)]
+    only = os.environ.get("C18_PARTS")
+    if only:
+        parts = [p for i, p in enumerate(parts) if str(i) in only.split(",")]
     for name, mk, cf in parts:
         t0 = time.time()
         m = parallel_explore(mk, H.jobs)
@@ -259,7 +321,7 @@ def main():
         H.log("%s: %d paths %s, %d obligations, %d discharged, %d workers, %.1fs" % (
             name, m.stats.get("paths", 0), m.counters, m.stats.get("obligations", 0), m.stats.get("discharged", 0), m.workers, time.time() - t0))
         c03.handle(H, m.violations, confirm_fn=cf, classify_fn=lambda l, c: None)
-    H.bounds.update({"programs": "parser-shaped terms of at most %d nodes with holes, open in contexts of 1-2 entries mixing parameters and definitions" % budget,
+    H.bounds.update({"programs": "parser-shaped terms of at most %d nodes with holes, open in 9 contexts of 1-3 entries mixing parameters, definitions, type-level aliases and a two-definition group" % budget,
                      "outside": "longer contexts, larger terms"})
     return H.finish()
 
